@@ -178,7 +178,7 @@ def check(ctx):
     bad = d.run_batch(corpus_cases())
     rng = ctx.rng("random")
     quick = ctx.tier == "quick"
-    ncases, length = (120, 170) if quick else (1500, 700)
+    ncases, length = (120, 170) if quick else (8000, 700)
     batch = []
     for i in range(ncases):
         batch.append(("random:%d" % i, gen_case(rng, rng.choice([10, 40, length]))))
